@@ -14,6 +14,27 @@ use crate::refs::{self, RefMsg};
 // ------------------------------------------------------------------------------------------------
 // Scripted reader / writer
 
+/// Every kind of hard I/O failure a port can report (everything but Interrupted, which means "try again").
+pub const HARD_KINDS: [io::ErrorKind; 17] = [
+    io::ErrorKind::Other,
+    io::ErrorKind::TimedOut,
+    io::ErrorKind::BrokenPipe,
+    io::ErrorKind::WouldBlock,
+    io::ErrorKind::UnexpectedEof,
+    io::ErrorKind::ConnectionReset,
+    io::ErrorKind::ConnectionAborted,
+    io::ErrorKind::NotConnected,
+    io::ErrorKind::InvalidData,
+    io::ErrorKind::InvalidInput,
+    io::ErrorKind::NotFound,
+    io::ErrorKind::PermissionDenied,
+    io::ErrorKind::WriteZero,
+    io::ErrorKind::AlreadyExists,
+    io::ErrorKind::AddrInUse,
+    io::ErrorKind::Unsupported,
+    io::ErrorKind::OutOfMemory,
+];
+
 #[derive(Clone, Copy, Debug, PartialEq, Eq)]
 pub enum ReadFault {
     Interrupted,
@@ -564,6 +585,37 @@ impl std::fmt::Display for ScriptedBusError {
 }
 
 impl std::error::Error for ScriptedBusError {}
+
+/// A bus error that wraps an I/O error (what a serial bus hands up when the port fails).
+#[derive(Debug)]
+pub struct WrappedIoBusError(pub std::io::Error);
+
+impl std::fmt::Display for WrappedIoBusError {
+    fn fmt(&self, f: &mut std::fmt::Formatter<'_>) -> std::fmt::Result {
+        write!(f, "bus failed: {}", self.0)
+    }
+}
+
+impl std::error::Error for WrappedIoBusError {
+    fn source(&self) -> Option<&(dyn std::error::Error + 'static)> {
+        Some(&self.0)
+    }
+}
+
+pub const N_BUS_ERROR_FLAVOURS: u8 = 6;
+
+/// The error a scripted bus returns: the controller must treat every kind alike (stop, hand the error up).
+pub fn bus_error(flavour: u8) -> Box<dyn std::error::Error + Send + Sync> {
+    use std::io::{Error, ErrorKind};
+    match flavour % N_BUS_ERROR_FLAVOURS {
+        0 => Box::new(ScriptedBusError("scripted bus error".into())),
+        1 => Box::new(Error::new(ErrorKind::Interrupted, "scripted bus error (interrupted)")),
+        2 => Box::new(Error::new(ErrorKind::TimedOut, "scripted bus error (timed out)")),
+        3 => Box::new(WrappedIoBusError(Error::new(ErrorKind::Interrupted, "scripted bus error (wrapped interrupted)"))),
+        4 => Box::new(Error::new(ErrorKind::WouldBlock, "scripted bus error (would block)")),
+        _ => Box::new(WrappedIoBusError(Error::new(ErrorKind::UnexpectedEof, "scripted bus error (wrapped eof)"))),
+    }
+}
 
 /// Forwards to the inner bus until `fail_at` messages have been processed, then fails every message.
 pub struct FaultBus<B: SignBus> {
